@@ -5,7 +5,7 @@
 (* (pop(0), re-append unless `once`), recorded calls, add / replace /       *)
 (* remove / reset, passthrough or refusal for unpatched endpoints.          *)
 (***************************************************************************)
-EXTENDS Naturals, Sequences, FiniteSets, TLC
+EXTENDS Integers, Sequences, FiniteSets, TLC
 
 CONSTANTS Endpoints, Methods, MaxOps, Ops       \* Ops: the operation alphabet of histories
 VARIABLES passthrough,
@@ -24,16 +24,21 @@ InitWith(p) == /\ passthrough = p /\ matches = NoPatches /\ calls = NoPatches /\
                /\ hist = <<>> /\ last = Ok
 Init == \E p \in BOOLEAN : InitWith(p)
 
+\* a patch is identified by the tag of its configured value; "twin" patches are configured IDENTICALLY (they share tag 99):
+\* which of them answers cannot be told apart, the sequence of answers can
+TwinTag == 99
 Patch(kind, once) == [kind |-> kind, once |-> once, tag |-> nextTag]
+TwinPatch(kind, once) == [kind |-> kind, once |-> once, tag |-> TwinTag]
 
 \* add: appended behind the existing patches of the pair
-Add(e, m, kind, once) ==
-    /\ matches' = [matches EXCEPT ![e][m] = Append(@, Patch(kind, once))]
-    /\ nextTag' = nextTag + 1 /\ last' = Ok /\ UNCHANGED <<passthrough, calls>>
-\* replace the idx-th (0-based) patch of the pair as the list stands now; nothing there -> an error, nothing changes
+Add(e, m, kind, once, twin) ==
+    /\ matches' = [matches EXCEPT ![e][m] = Append(@, IF twin THEN TwinPatch(kind, once) ELSE Patch(kind, once))]
+    /\ nextTag' = (IF twin THEN nextTag ELSE nextTag + 1) /\ last' = Ok /\ UNCHANGED <<passthrough, calls>>
+\* replace the idx-th (0-based; negative: counted from the end, as Python lists do) patch of the pair as the list stands now;
+\* nothing there -> an error, nothing changes
 Replace(e, m, idx, kind, once) ==
-    /\ IF idx < Len(matches[e][m])
-       THEN /\ matches' = [matches EXCEPT ![e][m][idx + 1] = Patch(kind, once)]
+    /\ IF (idx >= 0 /\ idx < Len(matches[e][m])) \/ (idx < 0 /\ -idx <= Len(matches[e][m]))
+       THEN /\ matches' = [matches EXCEPT ![e][m][IF idx >= 0 THEN idx + 1 ELSE Len(matches[e][m]) + idx + 1] = Patch(kind, once)]
             /\ nextTag' = nextTag + 1 /\ last' = Ok
        ELSE /\ last' = [k |-> "error", replies |-> <<>>] /\ UNCHANGED <<matches, nextTag>>
     /\ UNCHANGED <<passthrough, calls>>
@@ -73,7 +78,7 @@ Call(e, shape, reqs) ==
     /\ UNCHANGED <<passthrough, nextTag>>
 
 Do(op) == /\ hist' = Append(hist, op)
-          /\ CASE op.op = "add"     -> Add(op.e, op.m, op.kind, op.once)
+          /\ CASE op.op = "add"     -> Add(op.e, op.m, op.kind, op.once, op.twin)
                [] op.op = "replace" -> Replace(op.e, op.m, op.idx, op.kind, op.once)
                [] op.op = "remove"  -> Remove(op.e, op.m)
                [] op.op = "reset"   -> Reset
@@ -97,6 +102,7 @@ FailedOpsAtomic == [][last'.k = "error" => (matches' = matches /\ calls' = calls
 \* once-patches are consumed by the call they answer; others stay, in round-robin order
 OnceUsedOnce == [][\A e \in Endpoints, m \in Methods :
                       (hist' # hist /\ hist'[Len(hist')].op = "call" /\ matches[e][m] # <<>> /\ Head(matches[e][m]).once
+                       /\ Head(matches[e][m]).tag # TwinTag
                        /\ \E j \in DOMAIN last'.replies : last'.replies[j].tag = Head(matches[e][m]).tag)
                       => Head(matches[e][m]).tag \notin {matches'[e][m][j].tag : j \in DOMAIN matches'[e][m]}]_vars
 TypeOK == nextTag >= 1
